@@ -45,7 +45,7 @@ pure("C33",
      "exhaustive tabulation of the unlock schedule on all five networks + differential check of unlock_height against binary search over the table; checked and release builds; Miri sample",
      "Exploration, exhaustive over heights: every height of the 210,000-block window ±50 on each network is tabulated; names: every tabulated minimum ±1 (~5×10^5 per network), length boundaries, and tens of millions of random non-reserved names. Names are sampled, not enumerated.",
      "minimum_at_height tabulated over [start-50, start+210050] per network: non-increasing, <= first 13-letter name at the first rune block, 0 after the window (and at 2 windows, 6.93M, u32::MAX), pre-window sample; unlock_height(r) vs min{h: minimum(h)<=r} for all tabulated minima ±1, boundaries, random names. distinct = (network, unlock height) pairs seen.",
-     {"evaluations": 1000000, "heights_tabulated": 1000000, "unlock_ok": 100000},
+     {"evaluations": 1000000, "heights_tabulated": 500000, "unlock_ok": 100000},
      shards_quick=5, shards_thorough=5, budget_quick=15, budget_thorough=120)
 
 
@@ -177,4 +177,59 @@ chain("C37",
       "Exploration over histories without reorganisations; the whole stream is replayed from the start at several points of each chain.",
       INSC_RULE + " Plus the rune classes of C09 in three quarters of the chains.",
       {"audits": 300, "events_replayed": 50000, "inscriptions_replayed": 20000, "rune_events_replayed": 1000})
+DRIVER_ASSUME = [
+    "node = mockcore with blocks injected into its state (scripts are not executed); chains come from the same generators as C01-C11 (transfers, reveals, rune transactions, duplicate coinbases in sat-only chains)",
+    "index content = masked canonical dump of every table through hook H2 (masked: timing, commit counters, savepoint bookkeeping, schema/creation metadata), read at quiescent points",
+    "checked build (overflow checks + debug assertions); `cfg!(test)` is off inside ord, so durability is immediate and savepoints are live",
+]
+
+
+def driver(pid, technique, level_text, rule, floors, budget_quick=40, budget_thorough=480, level="exploration", **kw):
+    CHECKS[pid] = dict(
+        level=level, technique=technique, level_text=level_text, rule=rule, floors=floors,
+        shards_quick=16, budget_quick=budget_quick, shards_thorough=16, budget_thorough=budget_thorough,
+        release_pass=False, miri=False, assumptions=DRIVER_ASSUME, crash_is_violation=True, **kw)
+
+
+driver("C12",
+       "differential monitor over schedules: the same generated chain indexed under many (commit interval, partition into update() calls, close/reopen points, savepoint parameters, 2-3 concurrent update() callers with injected post-commit delays) and the masked dump of all tables compared with the every-block / interval-1 run",
+       "Exploration over schedules x histories: ~10^2 chains x 7 schedules per quick run (14 thorough); hook counters show how many commits, savepoints and yields between concurrent callers were actually produced.",
+       "chain of 40-100 blocks (60-250 thorough; one in five sat-only with duplicate coinbases, otherwise inscriptions+runes with a random subset of the optional indexes); schedule = commit interval in {1,2,3,5,17,5000} x chunking {all singles, one call, random 1-25} x reopen probability {0,10%,50%,100%} x savepoint interval {1,3,10,1000} x max savepoints {1,2,3}; every fourth schedule has 2-3 threads calling update() while blocks arrive, with 0/1/3 ms sleeps at commit.end (hook H1). distinct = schedule parameter tuples x index configuration.",
+       {"evaluations": 100, "schedules_equal": 50, "commits": 2000, "savepoints_created": 500, "schedules_with_reopen": 30, "concurrent_schedules": 10})
+
+driver("C13",
+       "fault injection: the indexer runs in a worker subprocess that aborts at the n-th hit of a named program point (hook H1), at the n-th point of any kind, or is SIGKILLed after k trace events; the parent reopens the index, compares the masked dump with the reference dump of the committed height it claims, and lets a new worker continue (up to 3 deaths per step)",
+       "Fault enumeration by sampling: 24 named crash points on the update / commit / savepoint / rollback path x occurrence numbers {1,2,3,5,8}, any-point#1..120 and event-count-timed SIGKILL, over histories grow-grow-(reorg of depth 1-2)-finish. The evidence lists which crash plans actually fired. Process death, not power loss.",
+       "history = chain A to a1 in 6..14, to a2 = a1+1..6, optional switch to branch B of depth 1-2 (+1-4 blocks); all indexes on (sats/addresses off in a quarter), commit interval {1,2,3,5000}, savepoint interval 3, 2 savepoints; one worker per step until the tip is reached, each with a fresh crash plan. Oracle: after every worker (dead or not) the reopened index must equal the from-scratch dump at (its block count, its tip hash); a clean exit must be at the tip. A reported unrecoverable reorg is compared with the same history run without faults. distinct = (plan, step, commit interval).",
+       {"evaluations": 100, "crashes_injected": 30, "consistent_after_crash": 30, "consistent_after_clean_exit": 30, "histories_completed": 10},
+       level="fault_enumeration")
+
+driver("C14",
+       "fault-sequence monitor: reorganisations of chosen depth at chosen heights (relative to savepoint spacing), after or during an update (hook action at the n-th indexed block), consecutive and nested; oracle = masked dump equality with a from-scratch index on the new best chain, header check against the node, status flag on reported unrecoverable reorgs; a logical-step fuse on the retry loop turns non-termination into an observable event",
+       "Exploration over (savepoint interval, max savepoints, commit interval, feed mode, reorg depth, tip height mod interval, during/after update): the evidence lists the (depth, height mod interval) pairs reached. 'Terminates' is restated as at most max_savepoints+6 iterations of the retry loop / rollbacks.",
+       "index with all tables (sats/addresses off in a third), savepoint interval {3,5,10}, max savepoints {1,2,3}, commit interval {1,2,5000}, blocks fed one per update / in batches / all at once; grow 2-45 blocks (70 thorough), then 1-3 reorgs of depth 1..max_savepoints*interval+4 with 1-3 extra blocks, a quarter of them landing while pending blocks of the old branch are being indexed. distinct = (interval, savepoints, commit interval, feed, depth, height mod interval, during-update).",
+       {"evaluations": 100, "updates_ok_after_reorg": 30, "equal_to_from_scratch": 30, "rollbacks_observed": 20, "unrecoverable_reported": 10, "reorgs_during_update": 10})
+
+driver("C15",
+       "differential monitor over configurations: one generated chain indexed under all 8 combinations of the sat / address / transaction indexes (inscriptions and runes on), with the first inscription / rune height at 0 or moved to 12..30 through hook H5 so that configurations without a full UTXO index fetch spent values from the node; projections of the inscription and rune tables compared",
+       "Exploration over histories x the 8 optional-index combinations x {local tracking, node-fetch path} x 3 update chunkings; the evidence counts runs on each value path.",
+       "chain of 35-80 blocks (60-160 thorough) mixing transfers, reveals (zero-value inputs, same-block spends, fee-spent and OP_RETURN destinations) and rune transactions; projection = inscription entries without sat and sat-derived charm bits, locations, id/number lookups, children, collections, per-height sequence numbers, blessed/cursed/unbound/rune statistics, rune entries and balances. distinct = (index bits, first-height override, chunking).",
+       {"evaluations": 60, "projections_equal": 30, "runs_with_full_utxo_index": 20, "runs_fetching_values_from_node": 8})
+
+driver("C16",
+       "totality monitor: Index::update() on generated valid chains that mix every generator class with an adversarial one (random witness stacks, dozens of envelopes per script, hostile CBOR / brotli in metadata and properties, multi-megabyte scripts, deep OP_IF nesting, runestones of 10^4 integers, u128::MAX edicts) under all 32 index configurations and both UTXO value paths; a returned error, a panic (caught, checked build) or a dead shard process (SIGSEGV/SIGABRT: stack overflow, allocation failure) is a violation",
+       "Exploration over inputs x configurations: every update() call is one evaluation; blocks stay under the 4,000,000 weight-unit consensus limit (over-weight draws are regenerated and counted). Scripts are not executed by the mock node, so 'consensus-valid' means structurally valid transactions with existing unspent inputs, outputs <= inputs, coinbase <= subsidy + fees.",
+       "chains of 20-60 blocks (40-150 thorough), index switches = all 32 subsets of (sats, addresses, transactions, runes, inscriptions), commit interval {1,3,5000}, first inscription/rune height 0 or 5-25 (hook H5: node-fetch path for input values), duplicate coinbases when neither inscriptions nor runes are indexed. distinct = per-transaction shape tuples and per-chain (configuration, shape) tuples.",
+       {"evaluations": 300, "updates_ok": 300, "blocks": 1000, "transactions": 3000})
+
+
+# Coverage floors exist to fail a run that observed (almost) nothing, not to
+# measure throughput: the engine checks above were written against an unloaded
+# 16-core run and had only a 2-4x margin (a loaded machine tripped C01's block
+# floor once). Keep them roughly an order of magnitude below an unloaded run.
+for _c in CHECKS.values():
+    if _c["assumptions"] is not PURE_ASSUME:
+        _c["floors"] = {k: max(1, v // 4) for k, v in _c["floors"].items()}
+
+
 NOT_APPLICABLE = {}
